@@ -75,6 +75,12 @@ func c06pair(c *Ctx, s1, e1, s2, e2 gdate) {
 	in := map[string]string{"x": s1.String() + " .. " + e1.String(), "y": s2.String() + " .. " + e2.String()}
 	c.Sample(map[string]string{"x": in["x"], "y": in["y"], "result": obs})
 	// (S) the property on the implementation
+	// the documented diagram, on independently computed civil day numbers
+	a, b := c06first(s1), c06last(e1)
+	cc, d := c06first(s2), c06last(e2)
+	if want := c06Documented(a, b, cc, d); want != name {
+		c.Oracle("", "the result is not the relation drawn in the documentation", in, name, want)
+	}
 	if name == "Invalid" {
 		c.Oracle("", "comparison of two forward ranges is invalid", in, obs, "not Invalid")
 	}
@@ -96,6 +102,64 @@ func c06pair(c *Ctx, s1, e1, s2, e2 gdate) {
 		c.Oracle("", "a range compared with itself is not equal",
 			map[string]string{"x": in["x"]}, self, "Equal")
 	}
+}
+
+func c06first(g gdate) int64 {
+	switch gran(g) {
+	case "y":
+		return civilDays(g.y, 1, 1)
+	case "m":
+		return civilDays(g.y, g.m, 1)
+	}
+	return civilDays(g.y, g.m, g.d)
+}
+
+func c06last(g gdate) int64 {
+	switch gran(g) {
+	case "y":
+		return civilDays(g.y, 12, 31)
+	case "m":
+		return civilDays(g.y, g.m, civilDim(g.m, g.y))
+	}
+	return civilDays(g.y, g.m, g.d)
+}
+
+// c06Documented is the diagram of date_range_comparison.go as endpoint inequalities: x=[a,b] is the
+// receiver, [c,d] the argument that frames the picture (dr.Compare(base) in TestDateRange_Compare).
+func c06Documented(a, b, c, d int64) string {
+	switch {
+	case a == c && b == d:
+		return "Equal"
+	case a == c:
+		if b < d {
+			return "InsideStart"
+		}
+		return "OutsideStart"
+	case b == d:
+		if c < a {
+			return "InsideEnd"
+		}
+		return "OutsideEnd"
+	case a < c:
+		switch {
+		case b < c:
+			return "EntirelyBefore"
+		case b == c:
+			return "Before"
+		case b < d:
+			return "PartiallyBefore"
+		}
+		return "Outside"
+	}
+	switch {
+	case d < a:
+		return "EntirelyAfter"
+	case a == d:
+		return "After"
+	case b < d:
+		return "Inside"
+	}
+	return "PartiallyAfter"
 }
 
 func gran(g gdate) string {
